@@ -128,6 +128,16 @@ def _check_vocab(out, cfg, tok):
         if not (len(d) == size == len(inv) and sorted(d.values()) == list(range(size))):
             out.fail(f"vocab-duplicate-bins:{tag}", f"bin edges {bins} repeat; size {size}, entries {len(d)}")
         consistent = False
+        # what R4 does NOT explain (and what holds on the pinned tree even for these bin counts): two different
+        # tokens sharing an id, or a member that does not survive encode -> decode
+        if len(set(d.values())) != len(d):
+            out.fail("ids-shared-by-different-tokens", f"{tag} cfg {cfg}: {len(d)} tokens, {len(set(d.values()))} distinct ids")
+        else:
+            try:
+                if tok.decode(tok.encode(list(d))) != list(d):
+                    out.fail("decode-encode", f"{tag}: decode(encode(t)) != t for a member")
+            except Exception as e:
+                out.fail("encode-decode-raises", f"{tag}: {type(e).__name__}: {e}")
     else:
         consistent = True
         if sorted(d.values()) != list(range(size)):
